@@ -496,8 +496,16 @@ class MiniEval:
         v = self.ev(n.operand)
         if isinstance(n.op, ast.Not):
             return not v
-        if isinstance(n.op, ast.USub):
-            return -v
+        try:
+            if isinstance(n.op, ast.USub):
+                return -v
+            if isinstance(n.op, ast.UAdd):
+                return +v
+            if isinstance(n.op, ast.Invert) and isinstance(v, int):
+                return ~v
+        except TypeError as e:
+            if _plain_value(v):
+                raise ModelRaise("TypeError", f"{norm(n)[:40]}: {e}")
         raise Unsupported(norm(n))
 
     def ev_BinOp(self, n):
